@@ -10,7 +10,7 @@ from vv.props.c02 import rows_equal
 RULE = ("The scenario generators of C01/C02 (every estimator family whose code path contains numba kernels, with their edge-biased sizes: "
         "length-0/1 sequences and strings, radius larger than the sequence, epsilon pruning cells before an EM iteration, "
         "coo_initial_memory='1k' with many events, fixed dictionaries, one-row / one-column matrices, window width equal to the sequence "
-        "length), the distance functions (C18 cases) and transport_plan (small C07 cases). Each scenario (fit_transform on X, transform on "
+        "length), the distance functions (C18 cases), transport_plan (small C07 cases) and the LOT kernels called directly (exact / dense / Sinkhorn internals on C08-style inputs). Each scenario (fit_transform on X, transform on "
         "X') is executed by three persistent worker interpreters: normal JIT, NUMBA_BOUNDSCHECK=1 and NUMBA_DISABLE_JIT=1. Violation: "
         "IndexError / UnboundLocalError / NameError in a checked mode when the normal mode returned; a checked-mode result that differs "
         "from the normal result (exact for integer outputs, rtol 1e-5 / atol 1e-7 otherwise); a crash of a worker. Exceptions raised "
@@ -64,6 +64,43 @@ def run_scenario(payload):
         except Exception as e:
             out["plan"] = ("exc", type(e).__name__, str(e)[:200])
         return out
+    if name == "lot_kernels":
+        # the LOT kernels themselves (exact plans, barycentric projection, spherical correction, batched Sinkhorn): the SVD
+        # compression that follows them in the estimators is scikit-learn's and is ill-conditioned in null directions
+        import numpy as np
+        import scipy.sparse as sp
+        from sklearn.preprocessing import normalize
+        from vectorizers import linear_optimal_transport as lot
+        from vv.props import c08
+        import numba
+        metric = spec["params"].get("metric", "euclidean")
+        W = np.asarray(spec["test"]["W"], dtype=np.float64)
+        V = np.asarray(c08.jitter(spec["test"]["V"]), dtype=np.float64)
+        k = spec["params"].get("reference_size", 3)
+        R = V[:k] + 0.05
+        dist = lot.cosine if metric == "cosine" else lot.named_distances["euclidean"]
+        if metric == "cosine":
+            V = normalize(V, norm="l2")
+            R = normalize(R, norm="l2")
+        q = np.full(R.shape[0], 1.0 / R.shape[0])
+        X = normalize(sp.csr_matrix(W), norm="l1")
+        steps = {
+            "sparse_internal": lambda: lot.lot_vectors_sparse_internal(X.indptr, X.indices, X.data.astype(np.float64), V, R, q, metric=dist,
+                                                                       max_distribution_size=256, chunk_size=256, spherical_vectors=(metric == "cosine")),
+            "dense_internal": lambda: lot.lot_vectors_dense_internal(
+                numba.typed.List([np.ascontiguousarray(V[W[i] > 0]) for i in range(W.shape[0])]),
+                numba.typed.List([(W[i][W[i] > 0] / W[i].sum()).astype(np.float64) for i in range(W.shape[0])]),
+                R, q, metric=dist, max_distribution_size=256, chunk_size=256, spherical_vectors=(metric == "cosine")),
+            "sinkhorn_internal": lambda: lot.sinkhorn_vectors_sparse_internal(
+                np.asarray(X.todense(), dtype=np.float64), V, q, R,
+                lot.chunked_pairwise_distance(V, R, dist=dist).T.astype(np.float64)),
+        }
+        for kname, f in steps.items():
+            try:
+                out[kname] = ("ok", [r for r in np.asarray(f(), dtype=np.float64)])
+            except Exception as e:
+                out[kname] = ("exc", type(e).__name__, str(e)[:300])
+        return out
     fam = F.get(name)
     try:
         est = fam.make(copy.deepcopy(spec))
@@ -87,13 +124,15 @@ def make_check(name):
         np = __import__("numpy")
         r = Result()
         r.label("family:" + name)
-        fam = F.get(name) if name not in ("distances", "transport_plan") else None
+        fam = F.get(name) if name not in ("distances", "transport_plan", "lot_kernels") else None
         exact = fam.exact if fam else False
         rtol, atol = (max(fam.rtol, 1e-5), max(fam.atol, 1e-7)) if fam else (1e-5, 1e-7)
         if fam is not None and fam.svd:
             rtol, atol = 1e-3, 1e-5
         if name == "distances":
             rtol, atol = 1e-5, 1e-6      # float32 products inside the sparse helpers
+        if name == "lot_kernels":
+            rtol, atol = 1e-5, 1e-7
         res = {}
         for mode, env in MODES.items():
             w = workers.get(env, mode)
@@ -154,6 +193,8 @@ def strategy_for(name):
             c = draw(c07.cases("quick"))
             return c
         return lambda tier: small(tier).filter(lambda c: c["n"] <= 6 and c["m"] <= 6)
+    if name == "lot_kernels":
+        return lambda tier: F.get("wass_LOT_exact_spmatrix").strategy(tier)
     fam = F.get(name)
     if name.endswith("_cooc") and name != "tree_cooc":
         @st.composite
@@ -185,6 +226,5 @@ FAMILIES = {}
 for _n, _q, _t in [("ngram", 60, 1000), ("skipgram", 60, 1000), ("lz", 60, 1000), ("bpe_sequences", 80, 1500), ("bpe_matrix", 40, 600),
                    ("token_cooc", 80, 1500), ("timed_cooc", 60, 1000), ("multi_cooc", 60, 1000), ("ngram_cooc", 60, 1000), ("tree_cooc", 40, 600),
                    ("iw", 60, 1000), ("rowdenoise", 60, 1000), ("slidewin", 40, 500), ("seqdiff", 20, 300), ("kde", 30, 300),
-                   ("wass_LOT_exact_spmatrix", 30, 400), ("wass_LOT_exact_lil", 25, 300), ("wass_LOT_sinkhorn_spmatrix", 25, 300),
-                   ("sinkhorn", 25, 300), ("distances", 300, 6000), ("transport_plan", 60, 1500)]:
+                   ("lot_kernels", 60, 900), ("distances", 300, 6000), ("transport_plan", 60, 1500)]:
     FAMILIES[_n] = Family(strategy_for(_n), make_check(_n), {"quick": _q, "thorough": _t}, {"quick": 1, "thorough": 4})
